@@ -211,7 +211,7 @@ GOVERN = {
     "paren": ["ep"], "unary": ["ep", "er"], "not": ["ep", "er"], "left": ["er"], "concat": ["er"], "assign": ["ep", "er"],
     "ternary": ["ep", "er"], "block": ["bp", "br"], "index": ["ep", "er"], "call": ["ep", "er"], "recur": ["br", "er"],
     "dollar": ["ep", "er"], "getline": ["ep", "er"], "pipe": ["ep", "er"], "incl": ["incl"],
-    "if": [], "elseif": [], "while": [], "map": [], "regex": [], "seq": [], "free": [], "recurpad": ["br", "er"],
+    "if": ["bp", "br"], "while": ["bp", "br"], "elseif": [], "map": [], "regex": [], "seq": [], "free": [], "recurpad": ["br", "er"],
     "recurvar": ["br", "er"], "exitrec": ["br", "er"], "exitblk": ["bp", "br"],
 }
 # nesting that does not depend on n: with every limit at least this, the family must run whatever n is
@@ -243,7 +243,7 @@ def stack_eff_of(cfg, e):
 
 # the limit that bounds the parser's own recursion for a family (none: the parser does not recurse per level)
 PARSE_GOV = {"paren": "ep", "unary": "ep", "not": "ep", "assign": "ep", "ternary": "ep", "index": "ep", "call": "ep",
-             "dollar": "ep", "getline": "ep", "pipe": "ep", "block": "bp", "incl": "incl"}
+             "dollar": "ep", "getline": "ep", "pipe": "ep", "block": "bp", "incl": "incl", "if": "bp", "while": "bp"}
 for _d in PHASE1_DEPTHS:
     PARSE_GOV["exitblk:%d" % _d] = "bp"
 
@@ -254,8 +254,9 @@ KIND2OBS = {"incl": (87, "parse"), "block_parse": (30, "parse"), "expr_parse": (
 
 class Cfg:
     """a limit configuration; None = leave the CLI default"""
-    def __init__(self, name, incl=None, bp=None, br=None, ep=None, er=None, stack=None, pragma=()):
+    def __init__(self, name, incl=None, bp=None, br=None, ep=None, er=None, stack=None, pragma=(), deparse=False):
         self.name, self.incl, self.bp, self.br, self.ep, self.er, self.stack, self.pragma = name, incl, bp, br, ep, er, stack, tuple(pragma)
+        self.deparse = deparse          # run with `-d /dev/null`: the deparser (tree.c print_*) walks the whole tree before the run
 
     def env(self):
         e = {}
@@ -279,7 +280,7 @@ class Cfg:
 
     def text(self):
         return self.name + "(" + " ".join("%s=%s" % kv for kv in sorted(self.env().items())) + \
-            ("" if not self.pragma else " pragma=" + ",".join(map(str, self.pragma))) + ")"
+            ("" if not self.pragma else " pragma=" + ",".join(map(str, self.pragma))) + (" deparse=1" if self.deparse else "") + ")"
 
 
 class Case:
@@ -326,7 +327,7 @@ def run_case(exe, wd, case, san=False):
     as_cap = None if san else ((768 << 20) if fam == "regex" else (3 << 30))
     budget = 20 + n / 4000.0 + (40 if san else 0)
     t = time.time()
-    p = subprocess.Popen(limited_cmd([exe, "-f", src], as_cap), cwd=cwd, env=env, stdin=subprocess.DEVNULL, stdout=subprocess.PIPE,
+    p = subprocess.Popen(limited_cmd([exe] + (["-d", "/dev/null"] if cfg.deparse else []) + ["-f", src], as_cap), cwd=cwd, env=env, stdin=subprocess.DEVNULL, stdout=subprocess.PIPE,
                          stderr=subprocess.PIPE, start_new_session=True)
     try:
         out, err = p.communicate(timeout=budget)
@@ -385,9 +386,9 @@ def replay_text(case, r, extra=""):
           ("python3 -c \"import sys; sys.path.insert(0,'%s'); from vlib.props.c14 import gen_incl; gen_incl('inc', %d)\"  # then run inc/main.hawk" % (C.VERIF, case.n))
     pr = "".join("@pragma stack_limit %d;  (prepended)\n" % p for p in case.cfg.pragma)
     envs = " ".join("%s=%s" % kv for kv in sorted(case.cfg.env().items()))
-    return ("%s\n# generate: %s\n%s# run: ulimit -s %d; %s <harness/depth_h.c built against the tree = bin/hawk + env overrides> -f t.hawk\n"
+    return ("%s\n# generate: %s\n%s# run: ulimit -s %d; %s <harness/depth_h.c built against the tree = bin/hawk + env overrides> %s-f t.hawk\n"
             "# (with the plain CLI defaults `hawk -f t.hawk` is the same run)\n# observed: %s\n# stderr tail: %s\n%s" % (
-                case.line(), gen, pr, STACK_KB, envs, obs_text(r), r["err"][-300:].replace("\n", " | "), extra))
+                case.line(), gen, pr, STACK_KB, envs, "-d /dev/null " if case.cfg.deparse else "", obs_text(r), r["err"][-300:].replace("\n", " | "), extra))
 
 
 # ----------------------------------------------------------------------------------------------------------
@@ -400,10 +401,14 @@ def max_depth(fam, cfg, tier):
     """largest depth that is meaningful / affordable for a family under a configuration"""
     if fam == "incl":
         return 150
+    if cfg.deparse and fam in ("elseif", "seq"):
+        return 3000                                          # the deparser indents an else-if ladder one tab more per arm
     if fam == "regex":
         return 30000 if cfg.name == "cli" else 1000          # memory is quadratic in the nesting (known finding)
     if fam == "seq":
         return 100000 if cfg.name in ("cli", "small") else 3000
+    if fam == "map" and tier == "quick":
+        return 300000                                        # building and freeing 10^6 nested maps takes several seconds
     if base_of(fam) == "free":
         return 1000000                                       # never evaluated: only the parser's loop and the destructor see it
     if base_of(fam) in ("recurpad", "recurvar"):
@@ -421,7 +426,7 @@ def max_depth(fam, cfg, tier):
             return 1000
     elif gov and all(e[k] == 0 for k in gov):
         return 1500
-    if not gov and cfg.name != "cli":
+    if not gov and cfg.name not in ("cli", "clidp"):
         return 3000                                          # no limit governs the family: one configuration is enough for the deep end
     if cfg.pragma and max(cfg.pragma) >= 100000 or any(v is not None and v >= 10000 for v in e.values()):
         return 3000                                          # limits far beyond what an 8 MB native stack can carry are the user's choice
@@ -446,11 +451,18 @@ def boundary_depths(fam, cfg, dfl):
     return out
 
 
+# shapes that make the deparser recurse or loop: chains, ladders, nested statements and expressions
+DEPARSE_FAMILIES = ["left", "concat", "left:add", "left:rel", "free:mul", "free:cat", "elseif", "if", "while", "block",
+                    "paren", "unary", "ternary", "index", "call", "dollar", "getline", "seq"]
+
+
 def cfg_applies(fam, cfg, quick, dfl):
     """which configurations a family is run under (the variant families would multiply the quick tier otherwise)"""
     b = base_of(fam)
     if fam == "incl" and cfg.pragma:
         return False
+    if cfg.deparse:
+        return fam in DEPARSE_FAMILIES
     if b in ("left", "free") and var_of(fam):
         return cfg.name in ("cli", "small") if quick else True
     if b in ("exitrec", "exitblk"):
@@ -475,6 +487,7 @@ def make_cases(ctx, dfl):
     quick = ctx.tier == "quick"
     cfgs = [
         Cfg("cli"),
+        Cfg("clidp", deparse=True),
         Cfg("small", incl=5, bp=7, br=9, ep=11, er=13),
         Cfg("runonly", bp=0, ep=0, br=17, er=40),
         Cfg("nodepth512", incl=0, bp=0, br=0, ep=0, er=0, stack=512),
@@ -503,7 +516,13 @@ def make_cases(ctx, dfl):
                     cases[c.key()] = c
                 continue
             steps = set(g for g in GEOM if g <= mx)
-            if cfg.name != "cli" and quick:
+            if cfg.deparse:
+                # the deparse runs repeat the cli runs with the printers of tree.c in front: every other step is enough
+                for n in sorted(set(g for g in GEOM[::2] if g <= mx) | ({mx} if mx < 1000000 else set())):
+                    c = Case(fam, n, cfg)
+                    cases[c.key()] = c
+                continue
+            if cfg.name not in ("cli", "clidp") and quick:
                 steps = set(g for g in steps if g <= 3000) | ({100000} if mx >= 100000 and cfg.name in ("small",) else set())
             if not quick:
                 steps |= set(g * m for g in GEOM for m in (2, 5) if g * m <= min(mx, 1000000) and (g * m <= 30000 or cfg.name in ("cli", "small", "mid")))
@@ -780,13 +799,11 @@ def graph_findings(ctx, g, d):
         known_ids = None
     if known_ids is not None:
         for txt, i in g["residual_sites"]:
-            if i not in known_ids and txt.split(" -> ")[0] in {x for ms in g["residual_groups"].values() for x in ms}:
-                grp = [k for k, ms in g["residual_groups"].items() if txt.split(" -> ")[0] in ms][0]
-                if ("unguarded-cycle:%s" % grp) in dict(C.known_findings(ctx.id)):
-                    ctx.problem("impl", "a recursive call was added inside the known unguarded cycle %s: %s (not in knownResidualSiteIds of Props/C14.lean; "
-                                "theorem residual_edges_known fails)" % (grp, txt),
-                                "# python3 extract/callgraph.py --repo %s --sites | grep -F '%s'\n# id %d\n" % (C.REPO, txt.split(" [")[0], i),
-                                found_input=False, sig="new-residual-site:%d" % i)
+            if i not in known_ids:
+                ctx.problem("impl", "a recursive call was added among the functions that recurse over a parse tree or lie on a known unguarded cycle: %s "
+                            "(not in knownResidualSiteIds of Props/C14.lean; theorem residual_edges_known fails)" % txt,
+                            "# python3 extract/callgraph.py --repo %s --sites | grep -F '%s'\n# id %d\n" % (C.REPO, txt.split(" [")[0], i),
+                            found_input=False, sig="new-residual-site:%d" % i)
     for fn, ctr, flag in g.get("incdec", []):
         if flag == 0:
             ctx.problem("impl", "%s(): a return/goto lies between %s++ and %s--: the depth counter stays too high when that exit is taken "
@@ -1017,7 +1034,7 @@ def replay(ctx, path):
             kv = dict(x.split("=", 1) for x in m.group(3).split() if "=" in x)
             g = lambda k: int(kv[k]) if k in kv else None
             cfg = Cfg(m.group(2), incl=g("C14_INCL"), bp=g("C14_BLOCK_PARSE"), br=g("C14_BLOCK_RUN"), ep=g("C14_EXPR_PARSE"), er=g("C14_EXPR_RUN"),
-                      stack=g("C14_STACK_LIMIT"), pragma=tuple(int(x) for x in kv["pragma"].split(",")) if "pragma" in kv else ())
+                      stack=g("C14_STACK_LIMIT"), pragma=tuple(int(x) for x in kv["pragma"].split(",")) if "pragma" in kv else (), deparse=("deparse" in kv))
             r = run_api(exe, wd, int(m.group(1)), cfg, d)
             what = oracle_api(int(m.group(1)), cfg, r)
             print("%s\n%s   oracle: %s" % (l.strip(), r["out"], what or "clean"))
@@ -1036,7 +1053,7 @@ def replay(ctx, path):
         kv = dict(x.split("=", 1) for x in m.group(4).split() if "=" in x)
         g = lambda k: int(kv[k]) if k in kv else None
         cfg = Cfg(m.group(3), incl=g("C14_INCL"), bp=g("C14_BLOCK_PARSE"), br=g("C14_BLOCK_RUN"), ep=g("C14_EXPR_PARSE"), er=g("C14_EXPR_RUN"),
-                  stack=g("C14_STACK_LIMIT"), pragma=tuple(int(x) for x in kv["pragma"].split(",")) if "pragma" in kv else ())
+                  stack=g("C14_STACK_LIMIT"), pragma=tuple(int(x) for x in kv["pragma"].split(",")) if "pragma" in kv else (), deparse=("deparse" in kv))
         c = Case(m.group(1), int(m.group(2)), cfg)
         c.res = run_case(exe, wd, c)
         probs = oracle_case(c, c.res, d)
